@@ -424,6 +424,16 @@ def c15(tier):
                             return add(entry, l if entry == "attr" else "", it if entry == "attr" else "#[derive_ex(%s)] %s" % (l, it))
                         plan.append(("split", two("%s, %s" % (A, b), B), one("%s(%s), %s" % (A, b, B)), None))
                         plan.append(("split", two(B, "%s, %s" % (A, b)), one("%s, %s(%s)" % (B, A, b)), None))
+    # an attribute that only LOOKS like a derive_ex list (a path ending in `derive_ex`) is foreign: with it or without it the same is generated
+    for it in ("struct X<T>(T, u8);", "enum X { #[default] A, B(u8) }"):
+        for A in ("Clone", "Debug", "Default", "PartialEq", "Hash"):
+            for B in ("Clone", "Debug", "PartialEq", "Hash", "Copy"):
+                if A == B:
+                    continue
+                for spelled in ("#[::derive_ex::derive_ex(%s)]", "#[derive_ex::derive_ex(%s)]"):
+                    x = add("attr", A, (spelled % B) + " " + it)
+                    y = add("attr", A, it)
+                    plan.append(("split", x, y, None))
     # the impl of B with its OWN bound(...) argument does not depend on what else is derived (nor on that trait's arguments)
     cl = ["Clone", "Debug", "PartialEq", "Hash", "Deref", "DerefMut", "Neg", "AddAssign"]
     for it in ("struct X<T>(T);", "struct X<T> { a: T }"):
